@@ -231,3 +231,21 @@ Theorem gen_C02_h_CTCP : forall s l,
   = GenEqClient.of_cres (Client.c_CTCP s l).
 Proof. exact GenEqClient.go_h_CTCP_eq. Qed.
 Print Assumptions gen_C02_h_CTCP.
+
+(* generated-code tie, stage 3: lock_panic_sites.  Gen/LockFacts.v (translator/go2coq2.go, lockFacts)
+   lists, for every function of the packages client and state, each statement that can panic —
+   conservatively: an index on a non-map, a slice expression, an unchecked type assertion, panic(),
+   a division, a call of a translated function — while a mutex locked in the SAME function is held
+   WITHOUT a deferred unlock: a panic there would leave the mutex locked for ever, although the
+   caller recovers (the class of the seeded change C02-3).  Today there are exactly two, both
+   harmless: cap[1:] in capSet.Add is guarded by HasPrefix(cap, "-") and other.Has(cap) in
+   capSet.Intersect never panics (gen_C19_capSet: Add = cap_add, Has = Ok _; CapsProofs shows
+   cap_add total).  A NEW site makes this lemma fail to compile. *)
+From Verif Require LockFacts.
+Lemma tie_C02_lock_panic_sites :
+  LockFacts.lock_panic_sites_client
+    = [("capSet.Add"%string, "c.caps[cap[1:]] = false"%string);
+       ("capSet.Intersect"%string, "!other.Has(cap)"%string)]
+  /\ LockFacts.lock_panic_sites_state = [].
+Proof. split; reflexivity. Qed.
+Print Assumptions tie_C02_lock_panic_sites.
